@@ -416,6 +416,15 @@ Proof.
   unfold AllProc. rewrite (core_gs _ _ C5), G3, G2. exact AP1.
 Qed.
 
+Lemma Inv_intro s' v gs sm gr rel nb :
+  core s' = (v, gs, sm, gr, rel, nb) -> InvP v gs sm gr rel nb -> Inv s'.
+Proof. unfold core, Inv. intros E. inversion E. subst. auto. Qed.
+Lemma ref_zero_core (s : ost T) :
+  core (sstate (ref_zero s)) =
+  (o_variant s, GNone, (if o_last_skipped s then o_summed s else None), grad_zero (o_grad s),
+   released (o_events s), o_next_bid s) /\ o_mgn (sstate (ref_zero s)) = o_mgn s.
+Proof. unfold ref_zero. cbn. destruct (o_last_skipped s); split; reflexivity. Qed.
+
 Lemma released_snoc_inner evs g : released (evs ++ [EInner (Some g)]) = released evs ++ grad_items g.
 Proof. rewrite released_app. cbn. now rewrite app_nil_r. Qed.
 
@@ -463,25 +472,34 @@ Lemma exec_inv s o : op_wf o -> Inv s -> Inv (sstate (exec s o)).
 Proof.
   intros W I. destruct o as [sids| | | |b|v|v]; cbn [exec op_wf] in *.
   - destruct (o_variant s) eqn:V.
-    4: { unfold fb_ghost. rewrite fgc_zero_eq. unfold ref_zero. cbn [sbind sstate].
-         unfold Inv, upd_grad, upd_gs, upd_summed, upd_next_bid.
-         cbn [o_variant o_gs o_summed o_grad o_events o_next_bid o_last_skipped o_mgn].
+    4: { unfold fb_ghost. cbv zeta. rewrite fgc_zero_eq.
+         set (s1 := upd_grad (upd_next_bid s (o_next_bid s + 1)) _).
+         assert (C1 : core s1 = (o_variant s, o_gs s, o_summed s, grad_add_raw (o_grad s) (map (fun sid => (o_next_bid s, sid)) sids),
+                                 released (o_events s), (o_next_bid s + 1)%Z) /\ o_last_skipped s1 = o_last_skipped s /\ o_mgn s1 = o_mgn s)
+           by (subst s1; repeat split).
+         clearbody s1. destruct C1 as (C1 & L1 & M1).
+         destruct (ref_zero_core s1) as (C2 & M2).
+         assert (R : ref_zero s1 = SOk (sstate (ref_zero s1)) tt) by reflexivity. rewrite R. cbn [sbind sstate].
+         set (s2 := sstate (ref_zero s1)) in *. clearbody s2.
+         unfold core in C1, C2. inversion C1 as [[V1 G1 S1 R1 E1 B1]]. rewrite V1, S1, R1, E1, B1, L1 in C2.
+         eapply Inv_intro.
+         { unfold core, upd_grad. cbn [o_variant o_gs o_summed o_grad o_events o_next_bid].
+           inversion C2 as [[V2 G2 S2 R2 E2 B2]]. rewrite V2, G2, S2, R2, E2, B2, M2, M1. reflexivity. }
          unfold Inv in I. rewrite V in *.
          replace (grad_add_items (grad_zero (grad_add_raw (o_grad s) (map (fun sid => (o_next_bid s, sid)) sids)))
                                  (clip_items (o_mgn s) (map (fun sid => (o_next_bid s, sid)) sids)))
            with (Some (mkgrad [] ([] ++ clip_items (o_mgn s) (map (fun sid => (o_next_bid s, sid)) sids)) [] []))
            by (destruct (o_grad s); reflexivity).
-         destruct (o_last_skipped s) eqn:L.
-         - apply (InvP_fb_ghost _ _ _ _ _ _ _ true W I).
-         - apply (InvP_fb_ghost _ _ _ _ _ _ _ false W I). }
+         destruct (o_last_skipped s).
+         - exact (InvP_fb_ghost (o_gs s) (o_summed s) (o_grad s) _ _ (o_mgn s) sids true W I).
+         - exact (InvP_fb_ghost (o_gs s) (o_summed s) (o_grad s) _ _ (o_mgn s) sids false W I). }
     all: unfold fb_hooks;
          match goal with |- context [if ?c then _ else _] => destruct c end; cbn [sstate];
          unfold Inv, upd_grad, upd_gs, upd_next_bid; cbn [o_variant o_gs o_summed o_grad o_events o_next_bid];
-         apply InvP_fb; auto; rewrite V; discriminate.
+         (eapply InvP_fb; [rewrite V; discriminate | exact W | exact I]).
   - rewrite step_eq. now apply step_inv.
-  - rewrite zero_eq. unfold ref_zero. cbn [sstate].
-    unfold Inv, upd_grad, upd_gs, upd_summed. cbn [o_variant o_gs o_summed o_grad o_events o_next_bid o_last_skipped].
-    destruct (o_last_skipped s); cbn [o_variant o_gs o_summed o_grad o_events o_next_bid].
+  - rewrite zero_eq. destruct (ref_zero_core s) as (C & _). eapply Inv_intro; [exact C|].
+    destruct (o_last_skipped s).
     + apply (InvP_zero _ _ _ _ _ _ true I).
     + apply (InvP_zero _ _ _ _ _ _ false I).
   - cbn [sstate]. unfold Inv, upd_grad, upd_gs. cbn [o_variant o_gs o_summed o_grad o_events o_next_bid].
@@ -499,8 +517,20 @@ Qed.
 
 Lemma init_inv v a nm mgn ebs rate mean secure accum : Inv (init_state v a nm mgn ebs rate mean secure accum).
 Proof.
-  unfold Inv, init_state. cbn. constructor; cbn; try constructor; try (intros c []); try (intros k []).
-  intros _. repeat split; try constructor; try (intros k []).
+  unfold Inv, init_state. cbn [o_variant o_gs o_summed o_grad o_events o_next_bid released flat_map].
+  constructor; cbn [cells skeys sitems sproc gitems graw map].
+  - constructor.
+  - constructor.
+  - constructor.
+  - constructor.
+  - constructor.
+  - constructor.
+  - intros c [].
+  - intros _. split; [constructor | apply disj_nil_l].
+  - constructor.
+  - constructor.
+  - intros _. split; [reflexivity|]. split; [reflexivity|]. split; [constructor|]. split; [constructor|].
+    intros _. split; [constructor|]. split; apply disj_nil_l.
 Qed.
 
 (* C11: no per-sample gradient is ever released twice, and only clipped gradients are released *)
